@@ -1706,7 +1706,11 @@ func (d *decoder[T]) interfaceExtConvertAndDecode(v interface{}, ext InterfaceEx
 	// - decode next value into an interface{}
 	// - pass it to the UpdateExt
 	var vv interface{}
+	// the extension nests a value: account for it like a container (a run of tags
+	// bound to an InterfaceExt otherwise recurses as deep as the input is long)
+	d.depthIncr()
 	d.decode(&vv)
+	d.depthDecr()
 	ext.UpdateExt(v, vv)
 	// rv := d.interfaceExtConvertAndDecodeGetRV(v, ext)
 	// d.decodeValue(rv, nil)
